@@ -30,7 +30,7 @@ pub static DEF: PropDef = PropDef {
         "panics are injected into C-API calls only while the model says the catcher is installed and enabled on that task (otherwise unwinding into extern \"C\" aborts by language rule)",
         "a failing call must replace the calling thread's last-error message; a succeeding call leaves it unchanged",
     ],
-    required_probes: &["c20.parse_ok", "c20.parse_err", "c20.nul_in_error", "c20.non_utf8", "c20.match_ok", "c20.status_panic", "c20.setter_fail", "c20.deser_fail", "c20.cross_task_error", "c20.hash"],
+    required_probes: &["c20.parse_ok", "c20.parse_err", "c20.nul_in_error", "c20.non_utf8", "c20.match_ok", "c20.status_panic", "c20.setter_fail", "c20.deser_fail", "c20.cross_task_error", "c20.hash", "c20.parse_panic", "c20.compile_panic"],
     extra: None,
 };
 
@@ -76,6 +76,8 @@ enum Call {
     MatchShared,
     MatchBoom(u32),
     MatchMissingMandatory,
+    ParseBoom(u32),
+    CompileBoom,
     ClearLastError,
     EnableCatcher,
     DisableCatcher,
@@ -375,7 +377,7 @@ fn do_call(st: &mut TaskState, sh: &Shared, call: &Call) {
         }
         Call::SetJson(name, json) => {
             let fname = "wirefilter_add_json_value_to_execution_context";
-            let got = ffi::wirefilter_add_json_value_to_execution_context(&mut st.ctx, name.as_ptr().cast(), name.len(), json.as_ptr(), json.len());
+            let got = seams::with_caller_buffer(json, |p, n| ffi::wirefilter_add_json_value_to_execution_context(&mut st.ctx, name.as_ptr().cast(), name.len(), p, n));
             match name_str(name) {
                 Err(e) => {
                     if got {
@@ -394,6 +396,8 @@ fn do_call(st: &mut TaskState, sh: &Shared, call: &Call) {
                             st.ok_calls += 1;
                             if !got {
                                 mismatch(st, fname, "result", format!("{n:?}={}: Rust API Ok, C API false", String::from_utf8_lossy(json)));
+                            } else if **st.ctx != st.shadow {
+                                mismatch(st, fname, "state", format!("{n:?}={}: contexts differ after the call (and after the caller reused its buffer)", String::from_utf8_lossy(json)));
                             }
                         }
                         Err(e) => {
@@ -437,7 +441,7 @@ fn do_call(st: &mut TaskState, sh: &Shared, call: &Call) {
                     return;
                 }
             };
-            let got = ffi::wirefilter_deserialize_json_to_execution_context(&mut st.ctx, bytes.as_ptr(), bytes.len());
+            let got = seams::with_caller_buffer(bytes, |p, n| ffi::wirefilter_deserialize_json_to_execution_context(&mut st.ctx, p, n));
             match reference {
                 Ok(()) => {
                     st.ok_calls += 1;
@@ -556,6 +560,57 @@ fn do_call(st: &mut TaskState, sh: &Shared, call: &Call) {
                     }
                 }
                 Err(_) => {}
+            }
+            verify_last_error(st, fname);
+        }
+        Call::ParseBoom(nth) => {
+            // a user function's parse-time callback (check_param) panics inside wirefilter_parse_filter
+            let fname = "wirefilter_parse_filter";
+            let Some(text) = &sh.boom_filter_text else { return };
+            if !st.catcher {
+                kernel::count("c20.skipped_panic_without_catcher");
+                return;
+            }
+            let fired_before = seams::fired_panics().len();
+            seams::arm_panic("fn.check_param", *nth);
+            let r = ffi::wirefilter_parse_filter(scheme, text.as_ptr().cast(), text.len());
+            seams::disarm_all();
+            let fired = seams::fired_panics();
+            if fired.len() > fired_before {
+                kernel::count("c20.status_panic");
+                kernel::count("c20.parse_panic");
+                if r.status != Status::Panic || r.ast.is_some() {
+                    mismatch(st, fname, "status", format!("`{text}`: a panic inside parse was reported as {:?}", r.status));
+                }
+                failing(st, fname, ExpErr::Contains(fired.last().unwrap().clone()));
+            } else if r.status != Status::Success {
+                mismatch(st, fname, "status", format!("`{text}` must parse when the armed callback was not reached: {:?}", r.status));
+            }
+            verify_last_error(st, fname);
+        }
+        Call::CompileBoom => {
+            // a user function's compile callback panics inside wirefilter_compile_filter
+            let fname = "wirefilter_compile_filter";
+            let Some(text) = &sh.boom_filter_text else { return };
+            if !st.catcher {
+                kernel::count("c20.skipped_panic_without_catcher");
+                return;
+            }
+            let ast = Box::new(ffi::FilterAst::from(scheme.parse(text).unwrap()));
+            let fired_before = seams::fired_panics().len();
+            seams::arm_panic("fn.compile", 1);
+            let r = ffi::wirefilter_compile_filter(ast);
+            seams::disarm_all();
+            let fired = seams::fired_panics();
+            if fired.len() > fired_before {
+                kernel::count("c20.status_panic");
+                kernel::count("c20.compile_panic");
+                if r.status != Status::Panic || r.filter.is_some() {
+                    mismatch(st, fname, "status", format!("`{text}`: a panic inside compile was reported as {:?}", r.status));
+                }
+                failing(st, fname, ExpErr::Contains(fired.last().unwrap().clone()));
+            } else if r.status != Status::Success {
+                mismatch(st, fname, "status", format!("{:?}", r.status));
             }
             verify_last_error(st, fname);
         }
@@ -679,7 +734,7 @@ fn gen_text(spec: &SchemeSpec, pool: &[MValue]) -> Vec<u8> {
 fn gen_calls(spec: &SchemeSpec, pool: &[MValue], n: usize, docs: &[Doc]) -> Vec<Call> {
     let mut out = Vec::new();
     for _ in 0..n {
-        let c = match choose_w(&[8, 2, 2, 2, 2, 4, 6, 3, 2, 3, 5, 3, 2, 2, 2, 2, 2, 1, 1], "call.kind") {
+        let c = match choose_w(&[8, 2, 2, 2, 2, 4, 6, 3, 2, 3, 5, 3, 2, 2, 2, 2, 2, 1, 1, 2, 1], "call.kind") {
             0 => Call::Parse(gen_text(spec, pool)),
             1 => Call::SerializeAst,
             2 => Call::Hash,
@@ -729,7 +784,9 @@ fn gen_calls(spec: &SchemeSpec, pool: &[MValue], n: usize, docs: &[Doc]) -> Vec<
             15 => Call::EnableCatcher,
             16 => Call::DisableCatcher,
             17 => Call::BadFallbackMode(2 + choose(250, "fb.mode") as u8),
-            _ => Call::SchemeJson,
+            18 => Call::SchemeJson,
+            19 => Call::ParseBoom(1 + choose(2, "pboom.nth") as u32),
+            _ => Call::CompileBoom,
         };
         out.push(c);
     }
@@ -817,7 +874,7 @@ fn run(ctx: &RunCtx) -> Result<(), Violation> {
         if *f == "concat" {
             builder.add_function("concat", wirefilter::ConcatFunction::new()).unwrap();
         } else {
-            builder.add_function(*f, seams::function_def(f)).unwrap();
+            builder.add_function(*f, seams::HookedFn(seams::function_def(f))).unwrap();
         }
     }
     for (ty, kind) in &spec.lists {
@@ -903,7 +960,7 @@ fn run(ctx: &RunCtx) -> Result<(), Violation> {
                     vec![Call::Parse(b"ssl and".to_vec()), Call::Hash, Call::Parse(b"\xff".to_vec())]
                 }
             }
-            2 => vec![Call::EnableCatcher, Call::MatchMissingMandatory, Call::MatchBoom(1), Call::DisableCatcher, Call::Parse(format!("{} == \"a\0b\" !", "http.host").into_bytes())],
+            2 => vec![Call::EnableCatcher, Call::MatchMissingMandatory, Call::MatchBoom(1), Call::ParseBoom(1), Call::CompileBoom, Call::DisableCatcher, Call::Parse(format!("{} == \"a\0b\" !", "http.host").into_bytes())],
             _ => gen_calls(&spec, &pool, range(2, max_calls, "ncalls"), &docs),
         };
         programs.push(p);
